@@ -70,8 +70,10 @@ def steps(k):
     return 3000 + 150 * k
 
 
-def in_order(log, k):
-    return len(log) <= k and log == list(range(len(log)))
+def in_order(log, k, vm=None):
+    if vm is None:
+        return len(log) <= k and log == list(range(len(log)))
+    return len(log) <= k and repr(log) == repr([vm(i) for i in range(len(log))])
 
 
 # ------------------------------------------------------------------ fill / request schedules
@@ -90,6 +92,15 @@ def make_target(cfg, variant):
         fr, el = fl.build_fr(cfg)
         seq = lena.core.FillRequestSeq(fl.ident, fr, fl.Post(), bufsize=2, reset=False, buffer_input=True)
         return seq, el, lambda res: res, fl.unpost
+    if variant == "nothing":
+        # the flow values are None, 0, "", {}, [], False, (0, {}), 0.0, (); compared by repr
+        fr, el = fl.build_fr(cfg)
+        return (fr, el, lambda res: [repr({"i": r["i"], "p": [fl.nothing(x) for x in r["p"]]}) for r in res],
+                lambda v: repr(fl.norm(v)))
+    if variant == "falsyres":
+        # the results of the wrapped element are such objects
+        fr, el = fl.build_fr(cfg, el=fl.EFalsyResults(cfg["m"]))
+        return fr, el, lambda res: [repr(fl.nothing(r["i"] + len(r["p"]) + 7)) for r in res], repr
     if variant == "sum":
         fr, _ = fl.build_fr(cfg, el=lena.math.Sum())
         return fr, None, lambda res: [sum(r["p"]) for r in res], lambda v: v
@@ -102,18 +113,20 @@ def make_target(cfg, variant):
     raise ValueError(variant)
 
 
-COMP = {"content": "FillRequest", "aslist": "FillRequest", "seq": "FillRequestSeq", "sum": "FillRequest(Sum)",
+COMP = {"nothing": "FillRequest(falsy-values)", "falsyres": "FillRequest(falsy-results)",
+        "content": "FillRequest", "aslist": "FillRequest", "seq": "FillRequestSeq", "sum": "FillRequest(Sum)",
         "store": "FillRequest(StoreFilled)", "store1": "FillRequest(StoreFilled)"}
 
 
 def _drive(guard, comp, agg, cfg, h, variant, record, obj, el, proj, nrm):
+    vm = fl.nothing if variant == "nothing" else None
     k = 0
     seen = 0
     sched = ""
     for op in h:
         sched += op["op"]
         if op["op"] == "f":
-            st, val = guard.call(lambda: obj.fill(k), steps(k))
+            st, val = guard.call(lambda: obj.fill(k if vm is None else vm(k)), steps(k))
             call = "fill"
             k += 1
         else:
@@ -138,7 +151,7 @@ def _drive(guard, comp, agg, cfg, h, variant, record, obj, el, proj, nrm):
             continue
         # every value reaches the element at most once, in order (all of them after a request with
         # yield_on_remainder)
-        if el is not None and (not in_order(el.fill_log, k) or
+        if el is not None and (not in_order(el.fill_log, k, vm) or
                                (call == "request" and cfg["yor"] and len(el.fill_log) != k)):
             agg.fail(comp, call, "accounted", cfg, sched, {"variant": variant, "element_fill_log": el.fill_log,
                                                            "values_filled": k})
@@ -179,15 +192,24 @@ def variants_for(cfg, thorough):
         vs.append("aslist")
     if cfg["kind"] == "fc" and cfg["m"] == 1:
         vs += ["sum", "store", "store1"]
+    if cfg["kind"] == "fr" and (cfg["m"] == 2 or (thorough and cfg["m"] > 0)):
+        vs.append("nothing")
+    if cfg["kind"] == "fr" and (cfg["m"] == 1 or (thorough and cfg["m"] > 0)):
+        vs.append("falsyres")
     return vs
 
 
 # ------------------------------------------------------------------ whole runs
-def run_whole(make, n_values, project):
+def flow_of(n_values, src="iter"):
+    return {"iter": lambda: iter(range(n_values)), "list": lambda: list(range(n_values)),
+            "tuple": lambda: tuple(range(n_values))}[src]()
+
+
+def run_whole(make, n_values, project, src="iter"):
     """make() -> object with run; returns (status, value)."""
     def go():
         obj = make()
-        return [project(x) for x in obj.run(iter(range(n_values)))]
+        return [project(x) for x in obj.run(flow_of(n_values, src))]
     return fl.guarded(go, 6000 + 600 * n_values)
 
 
@@ -217,25 +239,48 @@ def seq_object(cfg, n2, oyor, form, holder):
     import lena.core
     fr, el = fl.build_fr(cfg)
     holder.append(el)
-    args = (fr,) if form == "bare" else (fl.ident, fr, fl.Post())
-    return lena.core.FillRequestSeq(*args, bufsize=n2, reset=False, buffer_input=True, yield_on_remainder=oyor)
+    kw = dict(bufsize=n2, reset=False, buffer_input=True, yield_on_remainder=oyor)
+    if form == "bare":
+        return lena.core.FillRequestSeq(fr, **kw)
+    if form == "tuple":
+        return lena.core.FillRequestSeq(fl.ident, fr, fl.Post(), **kw)
+    if form == "onetuple":
+        # a single tuple argument is expanded
+        return lena.core.FillRequestSeq((fl.ident, fr, fl.Post()), **kw)
+    if form == "twofr":
+        # of several FillRequest elements the first is filled, later ones are used as Run elements
+        second = lena.core.FillRequest(PostRun(), bufsize=1, buffer_input=True)
+        return lena.core.FillRequestSeq(fr, second, **kw)
+    raise ValueError(form)
+
+
+class PostRun(object):
+    """Run element that marks each value once (the post-processing of fl.Post as a run method)."""
+
+    def run(self, flow):
+        for v in flow:
+            yield ("post", v)
 
 
 def replay_run(ctx, agg, rec, thorough):
     import lena.core
     import lena.math
-    cfg, n_values = rec["cfg"], rec["N"]
+    cfg, n_values, src = rec["cfg"], rec["N"], rec.get("src", "iter")
     ok = True
+    tag = "N=%d" % n_values + ("" if src == "iter" else ":flow-is-a-" + src)
     # FillRequest.run
     if not agg.skip("FillRequest", cfg):
-        st, val = run_whole(lambda: fl.build_fr(cfg)[0], n_values, fl.norm)
-        ok &= check_whole(agg, "FillRequest", "run", cfg, "N=%d" % n_values, st, val, rec["out"])
-        ctx.case(["run", cfg, n_values], nontrivial=n_values > 0)
+        st, val = run_whole(lambda: fl.build_fr(cfg)[0], n_values, fl.norm, src)
+        ok &= check_whole(agg, "FillRequest", "run", cfg, tag, st, val, rec["out"])
+        ctx.case(["run", cfg, n_values, src], nontrivial=n_values > 0)
         if cfg["kind"] == "fc" and cfg["m"] == 1:
-            st, val = run_whole(lambda: fl.build_fr(cfg, el=lena.math.Sum())[0], n_values, lambda v: v)
-            ok &= check_whole(agg, "FillRequest(Sum)", "run", cfg, "N=%d" % n_values, st, val,
+            st, val = run_whole(lambda: fl.build_fr(cfg, el=lena.math.Sum())[0], n_values, lambda v: v, src)
+            ok &= check_whole(agg, "FillRequest(Sum)", "run", cfg, tag, st, val,
                               [sum(r["p"]) for r in rec["out"]])
-            ctx.case(["run-sum", cfg, n_values], nontrivial=n_values > 0)
+            ctx.case(["run-sum", cfg, n_values, src], nontrivial=n_values > 0)
+    if src != "iter":
+        return ok
+    if not agg.skip("FillRequest", cfg):
         if cfg["kind"] == "run" and not cfg["pv"] and cfg["m"] == 1 and not cfg["take"]:
             # lena.core.Run(fill/compute element) as the wrapped run element
             def make():
@@ -271,8 +316,8 @@ def replay_run(ctx, agg, rec, thorough):
             ok &= good
             ctx.case(["split", form, cfg, n_values, bs], nontrivial=n_values > 0)
     if not cfg["yor"]:
-        for sq in rec["seq"]:
-            for form in ("bare", "tuple"):
+        for j, sq in enumerate(rec["seq"]):
+            for form in ("bare", "tuple", ("onetuple", "twofr", "twofr")[(j + n_values) % 3]):
                 if agg.skip("FillRequestSeq[%s]" % form, cfg):
                     continue
                 holder = []
@@ -319,6 +364,31 @@ def misc(ctx):
             return []
     expect("reset-missing", LenaTypeError, lambda: FillRequest(NoReset(), reset=True, buffer_input=True))
     expect("no-methods", LenaTypeError, lambda: FillRequest(object(), reset=False, buffer_input=True))
+    # a data attribute named reset is not a reset method
+    class ResetAttr(NoReset):
+        reset = "2023A"
+    expect("reset-is-data", LenaTypeError, lambda: FillRequest(ResetAttr(), reset=True, buffer_input=True))
+    try:
+        ctx.case(["init", "no-reset-method"])
+        if FillRequest(NoReset(), reset=False, buffer_input=True).reset is not None or \
+                FillRequest(ResetAttr(), reset=False, buffer_input=True).reset is not None:
+            ctx.violation("FillRequest.init:reset-method-not-disabled", {})
+        # an integral float is a block size
+        ctx.case(["init", "bufsize=2.0"])
+        got = [fl.norm(v) for v in FillRequest(fl.EFR(1), bufsize=2.0, reset=True, buffer_input=True).run(iter(range(5)))]
+        if got != [{"i": 1, "p": [0, 1]}, {"i": 1, "p": [2, 3]}]:
+            ctx.violation("FillRequest.init:bufsize=2.0:results", {"observed": got})
+        # FillRequestSeq.reset resets its FillRequest element (the wrapped element)
+        ctx.case(["FillRequestSeq.reset"])
+        el = fl.EFR(1)
+        seq = lena.core.FillRequestSeq(FillRequest(el, bufsize=2, reset=False, buffer_input=True),
+                                       bufsize=2, reset=False, buffer_input=True)
+        seq.fill(1)
+        seq.reset()
+        if el.content or el.resets != 1:
+            ctx.violation("FillRequestSeq.reset:element-not-reset", {"content": el.content, "resets": el.resets})
+    except Exception as e:   # noqa
+        ctx.violation("FillRequest.misc:raised:" + exc_name(e), {"exception": repr(e)})
     # a run-only element gives an adapter without fill and request
     try:
         fr = FillRequest(fl.ERun(), buffer_input=True)
@@ -344,21 +414,22 @@ def record_random(ctx, agg, rnd, count):
         start = len(trace)
         what = rnd.choice(["sched", "sched", "sched", "run", "split", "seq"])
         if what == "sched":
-            cfg = random_cfg(rnd, ["fc", "fr", "both"])
+            cfg = random_cfg(rnd, ["fc", "fr", "both", "frc"])
             p = rnd.choice([0.1, 0.25, 0.5])
             h = [{"op": "r" if rnd.random() < p else "f"} for _ in range(rnd.randint(1, 40))]
             replay_schedule(ctx, agg, cfg, h, rnd.choice(["content", "content", "aslist"]), record=trace)
         elif what == "run":
-            cfg = random_cfg(rnd, ["fc", "fr", "both", "run"])
+            cfg = random_cfg(rnd, ["fc", "fr", "both", "run", "frc"])
             cfg["pv"] = cfg["kind"] == "run" and rnd.random() < 0.5
             if cfg["kind"] == "run" and cfg["n"] > 1 and rnd.random() < 0.4:
                 cfg["take"] = rnd.randint(1, cfg["n"] - 1)
             n_values = rnd.randint(0, 40)
-            st, val = run_whole(lambda: fl.build_fr(cfg)[0], n_values, fl.norm)
-            trace.append({"e": "run", "cfg": cfg, "N": n_values, "out": val} if st == "ok" else
-                         {"e": st, "at": "run", "cfg": cfg, "N": n_values})
+            src = rnd.choice(["iter", "iter", "list", "tuple"])
+            st, val = run_whole(lambda: fl.build_fr(cfg)[0], n_values, fl.norm, src)
+            trace.append({"e": "run", "cfg": cfg, "N": n_values, "out": val, "src": src} if st == "ok" else
+                         {"e": st, "at": "run", "cfg": cfg, "N": n_values, "src": src})
         elif what == "split":
-            cfg = random_cfg(rnd, ["fc", "fr"])
+            cfg = random_cfg(rnd, ["fc", "fr", "frc"])
             n_values = rnd.randint(0, 40)
             bs = rnd.choice([1, 2, 3, 4, 5, 6, 7, 9, 12, 1000, NONE])
             holder = []
@@ -402,6 +473,25 @@ def mc_and_export(ctx, module, cfg, must_cover):
     return res.records
 
 
+_THOROUGH = False
+
+
+def _replay_chunk(recs):
+    """Worker: replay a share of the exported behaviours; returns counts and failures."""
+    col = fl.Collector()
+    agg = Agg(None)
+    for rec in recs:
+        if rec["t"] == "fr":
+            cfg = rec["cfg"]
+            for variant in variants_for(cfg, _THOROUGH):
+                if replay_schedule(col, agg, cfg, rec["h"], variant) is not None:
+                    col.case(["sched", variant, cfg, fl.sched_str(rec["h"])],
+                             nontrivial=any(o["op"] == "f" for o in rec["h"]))
+        else:
+            replay_run(col, agg, rec, _THOROUGH)
+    return col.counts(), agg.fails, agg.per_class, agg.skipped
+
+
 def run(ctx):
     ctx.assume("the wrapped element is a harness element whose results carry a snapshot of its content "
                "(lena.math.Sum, lena.flow.StoreFilled and lena.core.Run are driven as projections); "
@@ -422,24 +512,22 @@ def run(ctx):
     ctx.extra["legacy_variant_rejected_by"] = leg.violated
 
     agg = Agg(ctx)
-    nfree = nrun = 0
-    for rec in recs:
-        if rec["t"] == "fr":
-            cfg = rec["cfg"]
-            for variant in variants_for(cfg, ctx.thorough):
-                if replay_schedule(ctx, agg, cfg, rec["h"], variant) is not None:
-                    ctx.case(["sched", variant, cfg, fl.sched_str(rec["h"])],
-                             nontrivial=any(o["op"] == "f" for o in rec["h"]))
-            nfree += 1
-            if nfree == 1000:
-                ctx.sample({"spec_behaviour_fill_request": rec})
-        else:
-            replay_run(ctx, agg, rec, ctx.thorough)
-            nrun += 1
-            if nrun == 700:
-                ctx.sample({"spec_behaviour_run": rec})
+    nfree = sum(1 for rec in recs if rec["t"] == "fr")
+    nrun = len(recs) - nfree
     if nfree < 500 or nrun < 200:
         raise core.MachineryError("export too small: %d schedules, %d runs" % (nfree, nrun))
+    ctx.sample({"spec_behaviour_fill_request": next(r for r in recs[len(recs) // 3:] if r["t"] == "fr")})
+    ctx.sample({"spec_behaviour_run": next(r for r in recs[len(recs) // 3:] if r["t"] == "run" and r["split"])})
+    global _THOROUGH
+    _THOROUGH = ctx.thorough
+    for counts, fails, per_class, skipped in fl.parallel_map(_replay_chunk, recs, fl.nprocs(ctx.thorough)):
+        fl.merge_counts(ctx, counts)
+        for k, v in fails.items():
+            if k not in agg.fails or v[0] < agg.fails[k][0]:
+                agg.fails[k] = v
+        for k, v in per_class.items():
+            agg.per_class[k] = agg.per_class.get(k, 0) + v
+        agg.skipped += skipped
     misc(ctx)
 
     # ---- code -> spec
@@ -487,8 +575,9 @@ def run(ctx):
     return ctx.finish(
         rule="S2C: every fill/request schedule of the bounded model (all configurations x all call sequences of "
              "MaxOps calls, compared after every call) on FillRequest around content elements (fill/compute, "
-             "fill/request, run+fill/request; generator and list results), Sum, StoreFilled and through "
-             "FillRequestSeq; every (configuration, flow length) run, and the same flow through Split (bare and "
+             "fill/request, run+fill/request, other method names + data attributes named like methods; generator and "
+             "list results; falsy flow values and falsy results), Sum, StoreFilled and through "
+             "FillRequestSeq; every (configuration, flow length, flow as iterator / list / tuple) run, and the same flow through Split (bare and "
              "tuple branch, every bufsize of the model) and FillRequestSeq.run; non-trivial = at least one value; "
              "C2S: seeded random configurations (block size <= 8, <= 40 values) validated by Trace_FillRequest",
         exhaustive=True)
